@@ -80,11 +80,28 @@ def build(loci0, bg0, variant):
                     v[q] = 8.0 / outw
             vals += v
         tail = rng.randint(0, W - 1)
+        edge = None
+        if rng.random() < 0.4:
+            # an input locus at the very end of the chromosome: its resized window runs off the end, so it is not usable and adds
+            # nothing to the histogram -- but the last complete tile is touched by it and must not be returned
+            b = rng.randrange(3)
+            t = dict(kind="bgedge", gc=gc_for(b), n=0, sig="low")
+            t["seq"] = tile_seq(rng, t["gc"], 0)
+            tiles.append(t); seq += t["seq"]
+            lf, rf = (W - outw) // 2, (W - outw + 1) // 2
+            vals += [0.0] * lf + [8.0 / outw] * (W - lf - rf) + [0.0] * rf
+            tail = rng.randint(1, 2)
+            edge = (len(tiles) - 1) * W + 6
         seq += "".join(rng.choice("ACGT") for _ in range(tail)); vals += [0.0] * tail
+        if edge is not None:
+            loci_rows.append([names[ci], edge, len(seq)])
         lens.append(len(seq))
         fa_lines.append(">" + names[ci]); fa_lines.append(seq)
         bw_vals.append(vals)
         masked = set()
+        for r in loci_rows:
+            if r[0] == names[ci]:
+                masked.update(range(r[1] // W, r[2] // W + 1))
         for k, t in enumerate(tiles):
             if t["kind"] in ("locus", "badlocus"):
                 s, e = (k * W, (k + 1) * W) if exact_bounds else (k * W + 2, (k + 1) * W - 2)
